@@ -42,7 +42,43 @@ var c14Planted = []string{"none", "none", "file", "file", "file000", "link-file"
 // paths that cannot even be lstat'ed: below a regular file (ENOTDIR), below a symlink loop (ELOOP), over-long name (ENAMETOOLONG)
 var c14Unstatable = []string{"parent-is-file", "parent-loop", "name-too-long"}
 
+// c14Bulk: a large batch on the long-lived environment (100..250 items over distinct names): items that succeed
+// (created or existing files), and a generated share of failing ones, optionally with 150..200-character names so
+// that the error texts of one reply add up to tens of kilobytes. Request and worst-case reply stay below the 32 KiB frame.
+func c14Bulk(rt *rapid.T) c14Case {
+	var c c14Case
+	n := rapid.IntRange(100, 250).Draw(rt, "bulk-n")
+	failShare := rapid.SampledFrom([]int{0, 5, 30, 60, 90}).Draw(rt, "bulk-failshare")
+	long := rapid.Bool().Draw(rt, "bulk-longnames")
+	budget := 24000
+	for i := 0; i < n; i++ {
+		fail := rapid.IntRange(0, 99).Draw(rt, "bulk-fail") < failShare
+		name := fmt.Sprintf("bulk%03d", i)
+		if long && fail {
+			name += "-" + strings.Repeat("n", rapid.IntRange(140, 190).Draw(rt, "bulk-pad"))
+		}
+		budget -= len(name) + 64
+		if budget < 0 {
+			break
+		}
+		it := c14Item{Name: name, Acc: rapid.SampledFrom([]string{"r", "w", "rw"}).Draw(rt, "bulk-acc")}
+		switch {
+		case fail:
+			it.Planted = "none" // no CREAT: an error at this index
+		case rapid.Bool().Draw(rt, "bulk-existing"):
+			it.Planted = "file"
+		default:
+			it.Planted, it.Creat = "none", true
+		}
+		c.Items = append(c.Items, it)
+	}
+	return c
+}
+
 func c14GenCase(rt *rapid.T) c14Case {
+	if rapid.IntRange(0, 11).Draw(rt, "bulk") == 0 {
+		return c14Bulk(rt)
+	}
 	var c c14Case
 	n := rapid.IntRange(0, 12).Draw(rt, "n")
 	plantedOf := map[string]string{}
@@ -93,10 +129,11 @@ func c14Flag(it c14Item) int {
 }
 
 type c14World struct {
-	env     container.Environment
-	root    string // host scratch of the container root dir
-	hostW   string // /proc/<init>/root/w
-	hostTmp string
+	env       container.Environment
+	root      string // host scratch of the container root dir
+	hostW     string // /proc/<init>/root/w
+	hostTmp   string
+	bulkItems int
 }
 
 func (w *c14World) close() {
@@ -354,6 +391,17 @@ func c14Run(c c14Case, w *c14World, rec *vh.Recorder) error {
 	for _, it := range c.Items {
 		classes = append(classes, "planted="+it.Planted)
 	}
+	if len(c.Items) >= 50 {
+		errBytes := 0
+		for _, r := range o.res {
+			if r.Err != nil {
+				errBytes += len(r.Err.Error())
+			}
+		}
+		classes = append(classes, "bulk-batch(>=50 items)", fmt.Sprintf("bulk-error-text-KiB=%d", errBytes/4096*4))
+		w.bulkItems += len(c.Items)
+		rec.Extra("items_opened_in_bulk_batches_on_one_environment", w.bulkItems)
+	}
 	rec.Case(c, nt, dedup(classes)...)
 	rec.Evals(len(c.Items))
 	if nt && rec.WantSample() {
@@ -386,7 +434,7 @@ func c14After(w *c14World, baseFds int, desc string) error {
 
 func TestC14Open(t *testing.T) {
 	rec := vh.NewRecorder(t, "C14", "exploration",
-		"open part: batch of 0..12 Open items over a 10-name pool (duplicates inside a batch, sub-directory paths with/without MkdirAll) x access mode x CREAT/EXCL/TRUNC/APPEND, with one of {nothing, regular file, mode-000 file, symlink to a file / to a file in another mount / dangling / to a FIFO, FIFO, directory, socket} planted at each path; oracle: sequential per-item expectation from the lstat state (descriptor with the path's dev/ino, regular, requested access mode, close-on-exec - or an error at exactly that index), planted objects and symlink targets untouched, returns within 5 s, Ping works afterwards, host descriptor count back to baseline; non-trivial = a success after a failure inside one batch")
+		"open part: one case in twelve is a bulk batch of 100..250 items over distinct names (0..90% failing, optionally 150..200-character names so that the error texts of one reply reach tens of KiB; the environment lives through all cases, so its init goes through garbage-collection cycles while batches are in progress); otherwise batch of 0..12 Open items over a 10-name pool (duplicates inside a batch, sub-directory paths with/without MkdirAll) x access mode x CREAT/EXCL/TRUNC/APPEND, with one of {nothing, regular file, mode-000 file, symlink to a file / to a file in another mount / dangling / to a FIFO, FIFO, directory, socket} planted at each path; oracle: sequential per-item expectation from the lstat state (descriptor with the path's dev/ino, regular, requested access mode, close-on-exec - or an error at exactly that index), planted objects and symlink targets untouched, returns within 5 s, Ping works afterwards, host descriptor count back to baseline; non-trivial = a success after a failure inside one batch")
 	w := &c14World{}
 	defer w.close()
 	vh.Check(t, rec, c14GenCase, func(c c14Case) error { return c14Run(c, w, rec) })
@@ -400,11 +448,28 @@ type c14SCase struct {
 }
 
 func TestC14Symlink(t *testing.T) {
-	rec := vh.NewRecorder(t, "C14", "exploration", "symlink/delete part: Symlink batches of 0..8 links (link path free / occupied by any planted kind / in a missing directory / duplicated inside the batch) and Delete of each planted kind; results index-aligned, occupied paths keep their object, Delete removes the link not its target")
+	rec := vh.NewRecorder(t, "C14", "exploration", "symlink/delete part: one case in twelve is a bulk batch of 60..110 links, 10..90% of them failing with long names; otherwise Symlink batches of 0..8 links (link path free / occupied by any planted kind / in a missing directory / duplicated inside the batch) and Delete of each planted kind; results index-aligned, occupied paths keep their object, Delete removes the link not its target")
 	w := &c14World{}
 	defer w.close()
 	vh.Check(t, rec, func(rt *rapid.T) c14SCase {
 		var c c14SCase
+		if rapid.IntRange(0, 11).Draw(rt, "bulk") == 0 {
+			// many links in one batch, a generated share of them failing (missing directory) with long names
+			n := rapid.IntRange(60, 110).Draw(rt, "bulk-n")
+			share := rapid.SampledFrom([]int{10, 50, 90}).Draw(rt, "bulk-failshare")
+			budget := 24000
+			for i := 0; i < n; i++ {
+				name := fmt.Sprintf("bulk%03d", i)
+				if rapid.IntRange(0, 99).Draw(rt, "bulk-fail") < share {
+					name = "nodir/" + name + "-" + strings.Repeat("n", rapid.IntRange(120, 170).Draw(rt, "bulk-pad"))
+				}
+				if budget -= len(name) + 80; budget < 0 {
+					break
+				}
+				c.Links = append(c.Links, c14Item{Name: name, Planted: "none"})
+			}
+			return c
+		}
 		n := rapid.IntRange(0, 8).Draw(rt, "n")
 		seen := map[string]string{}
 		for i := 0; i < n; i++ {
@@ -518,7 +583,11 @@ func TestC14Symlink(t *testing.T) {
 			}
 		}
 		nt = okSeen && failSeen
-		rec.Case(c, nt, "symlink-delete")
+		sclasses := []string{"symlink-delete"}
+		if len(c.Links) >= 50 {
+			sclasses = append(sclasses, "bulk-symlink-batch(>=50 links)")
+		}
+		rec.Case(c, nt, sclasses...)
 		if nt && rec.WantSample() {
 			rec.Sample(c)
 		}
